@@ -44,6 +44,9 @@ func main() {
 	cleanup := func() {}
 	if !child {
 		sweep()
+		if len(os.Args) > 1 && os.Args[1] == "sweep" {
+			return
+		}
 		cleanup = rig.UseFastTmp() // the factory node's data directory
 	}
 	fin := func() {
